@@ -44,16 +44,24 @@ def nl_family(tier, seed):
     # dangling gate next to live logic
     out.append(NL(2, [], [('AND2', ('i0', 'i1')), ('OR2', ('i0', 'i1'))], ['g1']))
     for i, nl in enumerate(F.t2()):
-        if i % 97 == seed % 97 or (tier == 'thorough' and i % 7 == 0):
+        if i % 97 == seed % 97 or (tier == 'thorough' and i % 23 == 0):
             if nl.n_in <= 4 and len(nl.outs) == 1: out.append(nl)
     return out
 
 
 def tasks(tier, seed):
     t = []
-    for lib in LIBS:
-        for sl in range(6): t.append(('v', lib, sl, 6, tier, seed))
-    for sl in range(4): t.append(('b', sl, 4, tier, seed))
+    if tier == 'quick':
+        for lib in LIBS:
+            for sl in range(6): t.append(('v', lib, sl, 6, tier, seed))
+        for sl in range(4): t.append(('b', sl, 4, tier, seed))
+    else:
+        # all option pairs on several hundred netlists per library: many small interleaved slices, slice-major order, so that a run
+        # ending at its budget has covered the same fraction of every library
+        nsl = 240
+        for sl in range(4): t.append(('b', sl, 4, tier, seed))
+        for sl in range(nsl):
+            for lib in LIBS: t.append(('v', lib, sl, nsl, tier, seed))
     return t
 
 
